@@ -103,9 +103,7 @@ pub fn run(ctx: &Ctx) -> Report {
                     }
                 }
             });
-            if sample_key(seed, i) < (1u64 << 50) {
-                acc.sample(sample_key(seed, i), json!({"tree": hx(&ser), "distinct_atoms": da.len(), "distinct_pairs": dp.len()}));
-            }
+            acc.maybe_sample(sample_key(seed, i), || json!({"tree": hx(&ser), "distinct_atoms": da.len(), "distinct_pairs": dp.len()}));
         });
         rep.absorb(acc);
     }
